@@ -5,6 +5,7 @@ package drv
 import (
 	"bytes"
 	"fmt"
+	"github.com/google/pprof/internal/symbolizer"
 	"io"
 	"net/http"
 	"net/http/httptest"
@@ -280,6 +281,9 @@ func (s *Session) Run() (res Result) {
 // information (a stripped binary).
 type FakeObj struct {
 	Prof *profile.Profile
+	// Symbolize makes SourceLine answer every address with one frame named after it (a binary
+	// with symbols); otherwise it answers nothing
+	Symbolize bool
 }
 
 type fakeObjFile struct {
@@ -321,7 +325,10 @@ func (f *fakeObjFile) ObjAddr(addr uint64) (uint64, error) { return addr, nil }
 func (f *fakeObjFile) BuildID() string                     { return f.m.BuildID }
 func (f *fakeObjFile) Close() error                        { return nil }
 func (f *fakeObjFile) SourceLine(addr uint64) ([]plugin.Frame, error) {
-	return nil, nil
+	if !f.o.Symbolize {
+		return nil, nil
+	}
+	return []plugin.Frame{{Func: fmt.Sprintf("sym_%s_%x", filepath.Base(f.name), addr), File: "f.c", Line: 1}}, nil
 }
 
 // Symbols implements plugin.ObjFile: one symbol per function name seen as outermost frame of a
@@ -371,11 +378,15 @@ func (f *fakeObjFile) Symbols(r *regexp.Regexp, addr uint64) ([]*plugin.Sym, err
 // ReportObj is Report with an object tool.
 func ReportObj(obj plugin.ObjTool, profs map[string]*profile.Profile, srcs []string, bools map[string]bool, strs map[string]string, ints map[string]int) (string, *UI, Result) {
 	reportObj = obj
-	defer func() { reportObj = nil }()
+	defer func() { reportObj, reportSym = nil, false }()
+	if m := strs["symbolize"]; m != "" && m != "none" {
+		reportSym = true // the real symbolizer over obj
+	}
 	return Report(profs, srcs, bools, strs, ints, nil, nil)
 }
 
 var reportObj plugin.ObjTool
+var reportSym bool
 
 // Report runs a one-shot report and returns the bytes written to the output file.
 // bools must contain the report format (e.g. "top": true). Granularity and sort are always
@@ -402,6 +413,10 @@ func Report(profs map[string]*profile.Profile, srcs []string, bools map[string]b
 		st[k] = v
 	}
 	s := &Session{Flags: &Flags{Bools: b, Strs: st, Ints: ints, Floats: floats, Lists: lists, Args: srcs}, Fetch: &MapFetcher{Profiles: profs}, Obj: reportObj}
+	if reportSym {
+		s.UI = &UI{}
+		s.Sym = &symbolizer.Symbolizer{Obj: reportObj, UI: s.UI}
+	}
 	res := s.Run()
 	out := ""
 	if bf := s.Writer.Files["out"]; bf != nil {
